@@ -154,7 +154,66 @@ func genWire(s *src, o *out) {
 		die("sendDataWriter.deliver no longer assembles the frame as prefix + (len newline data | data newline)")
 	}
 	o.defBytes("data_v2_binary_format", wireOne("sendDataV2 Sprintf", wireSprintfFormats(s, "trzszTransfer.sendDataV2"), 1))
-	o.defBytes("data_v2_base64_prefix", wireOne("sendDataV2 []byte literal", wireByteLiterals(s, "trzszTransfer.sendDataV2"), 1))
+	// sendDataV2, data not pre-assembled (the pieces pipelineSendData cuts): the binary header must be
+	// formatted with the NEGOTIATED newline; the base64 branch writes prefix, piece, terminator - the
+	// terminator is either the negotiated newline or (a slip the model then follows) a literal
+	v2 := s.fn("trzszTransfer.sendDataV2")
+	v2ok := false
+	ast.Inspect(v2.Body, func(n ast.Node) bool {
+		if c, ok := n.(*ast.CallExpr); ok {
+			if sel, ok := c.Fun.(*ast.SelectorExpr); ok && sel.Sel.Name == "Sprintf" && len(c.Args) == 3 {
+				if s.text(c.Args[1]) == "length" && s.text(c.Args[2]) == "t.transferConfig.Newline" {
+					v2ok = true
+				}
+			}
+		}
+		return true
+	})
+	if !v2ok {
+		die("sendDataV2: the binary header is no longer Sprintf(format, length, t.transferConfig.Newline)")
+	}
+	var v2writes []ast.Expr // arguments of the t.writeAll calls of the last else branch
+	ast.Inspect(v2.Body, func(n ast.Node) bool {
+		if is, ok := n.(*ast.IfStmt); ok && s.text(is.Cond) == "t.transferConfig.Binary" {
+			if eb, ok := is.Else.(*ast.BlockStmt); ok {
+				ast.Inspect(eb, func(m ast.Node) bool {
+					if c, ok := m.(*ast.CallExpr); ok && s.text(c.Fun) == "t.writeAll" && len(c.Args) == 1 {
+						v2writes = append(v2writes, c.Args[0])
+					}
+					return true
+				})
+			}
+			return false
+		}
+		return true
+	})
+	if len(v2writes) != 3 || s.text(v2writes[1]) != "buffer" {
+		die("sendDataV2: the base64 branch no longer writes prefix, buffer, terminator (%d writes)", len(v2writes))
+	}
+	v2lit := func(e ast.Expr) (string, bool) {
+		if c, ok := e.(*ast.CallExpr); ok && len(c.Args) == 1 {
+			if lit, ok := c.Args[0].(*ast.BasicLit); ok && lit.Kind == token.STRING {
+				return s.evalString(lit), true
+			}
+		}
+		return "", false
+	}
+	pre, ok := v2lit(v2writes[0])
+	if !ok {
+		die("sendDataV2: base64 prefix is not a literal: %s", s.text(v2writes[0]))
+	}
+	o.defBytes("data_v2_base64_prefix", pre)
+	if s.text(v2writes[2]) == "[]byte(t.transferConfig.Newline)" {
+		o.raw("Definition data_v2_piece_terminator : option (list N) := None. (* the negotiated newline *)\n")
+	} else if lit, ok := v2lit(v2writes[2]); ok {
+		bs := make([]int64, len(lit))
+		for i := 0; i < len(lit); i++ {
+			bs[i] = int64(lit[i])
+		}
+		o.raw("Definition data_v2_piece_terminator : option (list N) := Some %s. (* a literal, NOT the negotiated newline *)\n", nlist(bs))
+	} else {
+		die("sendDataV2: terminator of the base64 branch is neither the negotiated newline nor a literal: %s", s.text(v2writes[2]))
+	}
 	o.defBytes("data_v1_binary_format", wireOne("sendData Sprintf", wireSprintfFormats(s, "trzszTransfer.sendData"), 1))
 	o.defBytes("pause_line_format", wireOne("checkStopAndPause Sprintf", wireSprintfFormats(s, "trzszTransfer.checkStopAndPause"), 1))
 	o.defBytes("ack_line_format", wireOne("pipelineSendAck Sprintf", wireSprintfFormats(s, "trzszTransfer.pipelineSendAck"), 1))
@@ -182,6 +241,33 @@ func genWire(s *src, o *out) {
 	}
 	o.defBytes("client_newline", nl)
 	o.defN("initial_buffer_size", initBuf)
+
+	// ---- the Windows-console framing: sendAction announces it (action.Newline = "!\n") and, for a
+	// Windows server, adopts it (t.transferConfig.Newline = "!\n"); both literals must agree
+	var winNls []string
+	ast.Inspect(s.fn("trzszTransfer.sendAction").Body, func(n ast.Node) bool {
+		if as, ok := n.(*ast.AssignStmt); ok && as.Tok == token.ASSIGN && len(as.Lhs) == 1 && len(as.Rhs) == 1 {
+			l := s.text(as.Lhs[0])
+			if l == "action.Newline" || l == "t.transferConfig.Newline" {
+				if lit, ok := as.Rhs[0].(*ast.BasicLit); ok && lit.Kind == token.STRING {
+					v := s.evalString(lit)
+					if v != nl {
+						winNls = append(winNls, v)
+					}
+				}
+			}
+		}
+		return true
+	})
+	if len(winNls) < 2 {
+		die("sendAction: expected the Windows newline to be announced and adopted, found %q", winNls)
+	}
+	for _, v := range winNls {
+		if v != winNls[0] {
+			die("sendAction: different Windows newlines %q", winNls)
+		}
+	}
+	o.defBytes("windows_newline", winNls[0])
 
 	// ---- reader buffers of the codec stages
 	dec := wireMakeSizes(s, "trzszTransfer.pipelineDecodeData")
